@@ -7,8 +7,8 @@ def check(tree, rep, tier='quick', seed=0):
     rep.explanation = ('Only the clauses visible in the code shape are decided: a stored value/input is immediately announced to its tracker '
                        '(K9 store => meet), refusal is monotone and re-tested between prompts and the prompt is called from one place (K10), a '
                        'dependency is scheduled once and marked as being solved (K12), and every loop that attempts lines iterates over a '
-                       'materialised sequence, never over the live met_dependents() generator (K15).')
-    rep.rule_text = 'obligation = one rule instance (K9 K10 K12 K15) on one statement, loop or call site of the solver'
+                       'materialised sequence, never over the live met_dependents() generator (K15); the tracker records every waiter and drains them all (K24a-d) and nothing but the tracker changes its waiter lists (K24e).')
+    rep.rule_text = 'obligation = one rule instance (K9 K10 K12 K15 K24a-e) on one statement, loop or call site of the solver'
     rep.exhaustive = True
     rep.assumptions = ['NOT decided (quantifies over all histories of register/meet/drain): termination of the work list, the bound on evaluations per line, and that every registered wait is released exactly once']
     core = get_core(tree)
